@@ -84,6 +84,9 @@ var (
 	errClosed  = errors.New("scripted: use of closed connection")
 	errIO      = errors.New("scripted: connection reset")
 	errHandler = errors.New("scripted: handler rejects frame")
+	// the connection is closed, but Close says so with an error
+	errCloseReport = errors.New("scripted: failed to send close alert (but connection was closed anyway)")
+	errDeadline    = errors.New("scripted: set deadline failed")
 )
 
 type cmd struct {
@@ -104,6 +107,10 @@ type sconn struct {
 	pendW    []byte
 	pendR    bool
 	peer     []byte
+	closeErr bool // Close closes and returns an error
+	failRDL  bool // armed: the next SetReadDeadline fails
+	failWDL  bool // armed: the next SetWriteDeadline fails
+	wdlFired bool // ... and it did; not yet logged
 }
 
 func newConn(name string) *sconn {
@@ -200,22 +207,33 @@ func (c *sconn) Close() error {
 	}
 	c.closed = true
 	close(c.closedCh)
+	if c.closeErr {
+		// like tls.Conn whose peer vanished: closed for everybody, but Close reports an error
+		return errCloseReport
+	}
 	return nil
 }
 
-func (c *sconn) deadline() error {
+func (c *sconn) deadline(armed *bool, fired *bool) error {
 	c.mu.Lock()
 	defer c.mu.Unlock()
 	if c.closed {
 		return errClosed
 	}
+	if armed != nil && *armed {
+		*armed = false
+		if fired != nil {
+			*fired = true
+		}
+		return errDeadline
+	}
 	return nil
 }
 func (c *sconn) LocalAddr() net.Addr                { return addr("local") }
 func (c *sconn) RemoteAddr() net.Addr               { return addr(c.name) }
-func (c *sconn) SetDeadline(t time.Time) error      { return c.deadline() }
-func (c *sconn) SetReadDeadline(t time.Time) error  { return c.deadline() }
-func (c *sconn) SetWriteDeadline(t time.Time) error { return c.deadline() }
+func (c *sconn) SetDeadline(t time.Time) error      { return c.deadline(nil, nil) }
+func (c *sconn) SetReadDeadline(t time.Time) error  { return c.deadline(&c.failRDL, nil) }
+func (c *sconn) SetWriteDeadline(t time.Time) error { return c.deadline(&c.failWDL, &c.wdlFired) }
 
 // command delivers m to the Read / Write in flight; false if the connection closed first.
 func (c *sconn) command(ch chan cmd, m cmd) bool {
@@ -259,6 +277,7 @@ type world struct {
 	own   bool // per-session handler (UpdateHandler) instead of the manager's
 	useDo bool // SessionMgr.Do instead of NewSession + Start
 	empty bool
+	dirty bool // something was fired since the last sync
 }
 
 // attributed: at least one goroutine was attributed to a session through the runtime's
@@ -308,7 +327,7 @@ func (d deadHandler) OnExit(s *stcp.Session) {
 	atomic.AddInt32(&(&shandler{d.wd}).find(s).exits, 100)
 }
 
-func newWorld(w *tr.W, n int, own, useDo, empty bool, src string) *world {
+func newWorld(w *tr.W, rng *rand.Rand, n int, own, useDo, empty bool, src string) *world {
 	wd := &world{x: qx.New(0), w: w, own: own && !useDo, useDo: useDo, empty: empty}
 	wd.x.Budget = budget
 	h := &shandler{wd}
@@ -322,11 +341,20 @@ func newWorld(w *tr.W, n int, own, useDo, empty bool, src string) *world {
 		wd.ss = append(wd.ss, &ssn{id: i, conn: newConn(fmt.Sprintf("s%d", i)), st: "new",
 			reg: make(chan *stcp.Session, 1)})
 	}
-	w.Emit(tr.E{"ev": "reset", "maxc": 100000, "free": false, "src": src, "own": wd.own, "do": useDo})
+	cerr := make([]bool, n)
+	for i, x := range wd.ss {
+		// a third of the connections close "with an error" (closed all the same)
+		x.conn.closeErr = rng.Intn(3) == 0
+		cerr[i] = x.conn.closeErr
+	}
+	w.Emit(tr.E{"ev": "reset", "maxc": 100000, "free": false, "src": src, "own": wd.own, "do": useDo, "closeerr": cerr})
 	return wd
 }
 
-func (wd *world) fire(a tr.E) { wd.w.Emit(tr.E{"ev": "fire", "a": a}) }
+func (wd *world) fire(a tr.E) {
+	wd.dirty = true
+	wd.w.Emit(tr.E{"ev": "fire", "a": a})
+}
 
 // ownedBy counts goroutines created by goroutine `starter` that are inside package stcp.
 func ownedBy(stacks string, starter int) int {
@@ -362,6 +390,17 @@ func (wd *world) sync() {
 	}
 	stacks := allStacks()
 	obs := make([]tr.E, len(wd.ss))
+	for _, x := range wd.ss {
+		// a SetWriteDeadline failure since the last sync: the item the send loop had taken is lost
+		// and the loop ends - in the specification's terms a Write that fails after 0 bytes
+		x.conn.mu.Lock()
+		f := x.conn.wdlFired
+		x.conn.wdlFired = false
+		x.conn.mu.Unlock()
+		if f {
+			wd.fire(tr.E{"op": "wfault", "s": x.id, "n": 0, "k": "dl"})
+		}
+	}
 	for i, x := range wd.ss {
 		c := x.conn
 		c.mu.Lock()
@@ -384,6 +423,7 @@ func (wd *world) sync() {
 			"w": tr.Ints(x.pendW), "r": x.pendR, "peer": peer, "g": g}
 	}
 	wd.w.Emit(tr.E{"ev": "sync", "obs": tr.E{"count": int(wd.mgr.ConnCount()), "ss": obs}})
+	wd.dirty = false
 }
 
 func (wd *world) session(x *ssn) *stcp.Session {
@@ -491,6 +531,12 @@ func (wd *world) step(a act, rng *rand.Rand) bool {
 			switch a.K {
 			case "herr":
 				m.b = 'E'
+			case "dl":
+				// the frame arrives, the handler returns nil, and the SetReadDeadline before the
+				// next Read fails: the receive loop ends exactly as with an error from Read
+				c.mu.Lock()
+				c.failRDL = true
+				c.mu.Unlock()
 			case "eof", "err", "timeout":
 				m.kind = a.K
 			default:
@@ -498,13 +544,42 @@ func (wd *world) step(a act, rng *rand.Rand) bool {
 			}
 		}
 		if !c.command(c.rcmd, m) {
+			c.mu.Lock()
+			c.failRDL = false
+			c.mu.Unlock()
 			return false
 		}
 		wd.fire(rec)
+	case "wdl":
+		// arm a failure of the next SetWriteDeadline; nothing happens now, nothing is logged now.
+		// Armed only in a quiescent state, so that the failure is caused by a later action.
+		if wd.dirty {
+			wd.sync()
+		}
+		c.mu.Lock()
+		if x.st == "run" && !c.closed {
+			c.failWDL = true
+		}
+		c.mu.Unlock()
+		return false
 	default:
 		return false
 	}
 	return true
+}
+
+// armed: some SetWriteDeadline failure is waiting to happen; until it has been logged every
+// action is followed by a sync, so that the log order is the real order
+func (wd *world) armed() bool {
+	for _, x := range wd.ss {
+		x.conn.mu.Lock()
+		a := x.conn.failWDL && !x.conn.closed
+		x.conn.mu.Unlock()
+		if a {
+			return true
+		}
+	}
+	return false
 }
 
 // drain ends every session that is still alive with a local Close and a reading peer, so that
@@ -532,9 +607,9 @@ func (wd *world) drain(rng *rand.Rand) {
 }
 
 func runPlan(w *tr.W, rng *rand.Rand, src string, n int, own, useDo, empty bool, plan []act) {
-	wd := newWorld(w, n, own, useDo, empty, src)
+	wd := newWorld(w, rng, n, own, useDo, empty, src)
 	for _, a := range plan {
-		if wd.step(a, rng) && !a.Hold {
+		if wd.step(a, rng) && (!a.Hold || wd.armed()) {
 			wd.sync()
 		}
 	}
@@ -600,7 +675,9 @@ func randPlan(rng *rand.Rand, n, steps int, empty bool) []act {
 		case x < 86:
 			a = act{Op: "wfault", N: rng.Intn(4)}
 		case x < 95:
-			a = act{Op: "rfault", K: []string{"eof", "err", "timeout", "herr"}[rng.Intn(4)]}
+			a = act{Op: "rfault", K: []string{"eof", "err", "timeout", "herr", "dl"}[rng.Intn(5)]}
+		case x < 97:
+			a = act{Op: "wdl"}
 		default:
 			a = act{Op: "panic"}
 		}
